@@ -372,7 +372,7 @@ func (t *SynthTransport) RoundTrip(req *http.Request) (*http.Response, error) {
 	path := strings.TrimPrefix(req.URL.Path, "/")
 	var body []byte
 	var ok bool
-	if path == synthKeyName || path == "keys/"+synthKeyName {
+	if path == synthKeyName || path == "keys/"+synthKeyName || (strings.HasPrefix(path, "keys/extra-") && strings.HasSuffix(path, ".rsa.pub")) {
 		body, ok = t.Repo.KeyPEM, true
 	} else {
 		body, ok = t.Repo.Files[path]
